@@ -74,6 +74,29 @@ def run(ctx):
                     it.call(f, [tuple(P)], {'return_poly1d': True}))
         ob('R19.1').run(fb2p, 'bezier2polynomial(deg %d) all output forms' % n, th_b2p, judge_b2p)
 
+    # one run, several degrees in a non-monotone order, every degree asked twice: tables shared between calls (memoised rows of
+    # Pascal's triangle, cached bases) must give the answer of the definition whatever was asked before
+    order = [maxdeg, 3, 4, 3, 2, maxdeg, 4, 0, 1, 0]
+
+    def th_order(it):
+        fb_, fp_, fn_ = it.closure_of('bezier.bernstein'), it.closure_of('bezier.bezier_point'), it.closure_of('bezier.n_choose_k')
+        out = []
+        for n in order:
+            out.append((n, it.call(fb_, [n, T], {}), it.call(fp_, [tuple(cpoints(n + 1)), T], {}), [it.call(fn_, [n, k], {}) for k in range(n + 1)]))
+        return out
+
+    def judge_order(v):
+        todo = []
+        for i, (n, b, pt, row) in enumerate(v):
+            if len(b) != n + 1:
+                return False, 'call %d: bernstein(%d, t) has %d entries' % (i, n, len(b))
+            if list(row) != [comb(n, k) for k in range(n + 1)]:
+                return False, 'call %d: n_choose_k(%d, .) == %r' % (i, n, row)
+            todo += [('call %d: bernstein(%d)[%d]' % (i, n, k), b[k], comb(n, k) * (1 - T) ** (n - k) * T ** k) for k in range(n + 1)]
+            todo.append(('call %d: bezier_point(deg %d)' % (i, n), pt, bernstein(cpoints(n + 1), T)))
+        return decide_all_equal(todo)
+    ob('R19.1').run(fb, 'degrees %r asked in one run (history independence)' % (order,), th_order, judge_order)
+
     # ---------------------------------------------------------------- R19.2
     fp2b = mdl.func('bezier.polynomial2bezier')
     for n in (2, 3, 4):
@@ -451,6 +474,32 @@ def _polyroots_semantics(ctx, mdl):
         from fractions import Fraction as Fr
         answers = [bool(it.truth(it.call(cond, [x], {}))) for x in (Fr(0), Fr(1), Fr(1, 2), Fr(-1, 10), Fr(11, 10))] if cond is not None else None
         return r, got, answers
+
+    # the polynomial itself reaches the root finder: a coefficient sequence is handed on with every coefficient (a leading
+    # coefficient that is merely small still determines the roots), on every label path
+    cs = [Rat.sym('k%d' % i) for i in range(4)]
+
+    def th01seq(it):
+        got = {}
+
+        def pr(it2, a, k):
+            got['a'] = a
+            return 'ROOTS'
+        it.call_hooks['polytools.polyroots'] = pr
+        from svtstatic import builtins_model as bm
+        it.call_hooks['misctools.isclose'] = lambda it2, a, k: bm.call_ext(it2, 'numpy.isclose', a, k)
+        r = it.call(it.closure_of('polytools.polyroots01'), [list(cs)], {})
+        if 'a' not in got:
+            raise Undecidable('polyroots01 does not go through polyroots')
+        p = got['a'][0]
+        p = list(p.c) if isinstance(p, PolyT) else list(it.iterate(p))
+        return r, [to_rat(x) for x in p]
+
+    def judge01seq(v):
+        r, p = v
+        ok = r == 'ROOTS' and len(p) == len(cs) and all(x.equals(c) for x, c in zip(p, cs))
+        return ok, '' if ok else 'for the coefficients [k0, k1, k2, k3] the root finder receives %s' % ([short(x, 16) for x in p],)
+    Obligation(ctx, 'R19.3').run(f01, 'polyroots01([k0..k3]) solves that polynomial', th01seq, judge01seq)
     Obligation(ctx, 'R19.3').run(f01, 'polyroots01 == polyroots(p, realroots=True, condition = closed [0,1])', th01,
                                  lambda v: (v[0] == 'ROOTS' and v[1]['k'].get('realroots') is True and v[2] == [True, True, True, False, False]
                                             and to_rat(v[1]['a'][0]).equals(Rat.sym('coeffs')),
